@@ -451,7 +451,7 @@ PROPS = {
                       "Err that has one and the bare 500 otherwise; it hands the logger exactly the event [code, response_body_len when the length is "
                       "known] at info for a response and [the error's own tags, its message, (its backtrace,) code, response_body_len] at error for an "
                       "error; a stopped logger comes back as Err (the `?`), never as a panic. log_request_and_response returns exactly what "
-                      "log_response makes of whatever the handler returned for that request. `log` (unit logorder): on Ok exactly one event was handed to the installed logger, with the "
+                      "log_response makes of whatever the handler returned for that request, and operates on the per-thread tag set in this order: emptied, the request's tags added, the handler run, the duration added, the response logged (ghost operation log; the tag set itself is a thread_local!, so the effect of each operation is assumed). `log` (unit logorder): on Ok exactly one event was handed to the installed logger, with the "
                       "level given and the tags ordered(given tags ++ the calling thread's tags), where ordered = the msg tags, then http_method, path, request_body_len, request_body, "
                       "response_body_len, then all others -- each kind in the order given (the key closure's table is proved equal to that ranking); on Err nothing is claimed but the error. "
                       "error / info / debug: the same with their level and the message tag in front of the tags given. Theorems: ordered(s) has as many tags as s and exactly the same ones "
